@@ -1796,6 +1796,7 @@ pub(crate) struct SelectionVector {
 }
 
 impl SelectionVector {
+    #[allow(dead_code)] // Used by tests for SIMD filtering verification
     pub fn all(row_count: usize) -> Self {
         let words = simd::bitmap_words(row_count);
         let mut bitmap = vec![!0u64; words];
@@ -6297,11 +6298,9 @@ impl RelationalEngine {
         condition: &Condition,
     ) -> Option<(SelectionVector, usize)> {
         match condition {
-            Condition::True => {
-                // Get row count from slab
-                let row_count = self.slab().row_count(table).ok()?;
-                Some((SelectionVector::all(row_count), row_count))
-            },
+            // `True` has no column to take the alive bitmap from (the live-row count is not the
+            // slot count once rows were deleted): leave it to the row-based path.
+            Condition::True => None,
 
             Condition::Eq(col, Value::Int(val)) => {
                 let (values, alive_words, null_words) =
